@@ -131,6 +131,8 @@ def observe_program(B, rec_xs, rec_ys, eqs, cases, rnd, res, stage, sp, f, space
         fxs[json.dumps(xq)] = v
     res['evaluable'] += 1 if evaluable else 0
     eqset = set(json.dumps(e) for e in eqs)
+    # points where f* is finite: a tiny step from a boundary point of dom f* towards them leads inside
+    anchors = [fu.frv(yq) for yq, _ in ys if math.isfinite(cys.get(json.dumps(yq), float('inf')))]
     if evaluable:
         # ---- Fenchel-Young on every pair (literal), events for a sample of them
         pairs = [(a, b) for a in xs for b in ys]
@@ -144,7 +146,7 @@ def observe_program(B, rec_xs, rec_ys, eqs, cases, rnd, res, stage, sp, f, space
             if math.isfinite(fx) and math.isfinite(cy) and fx + cy < ip - SLACK * max(1, abs(ip), abs(fx), abs(cy)):
                 bad.append('fenchel-young-inequality')
             if iseq and math.isfinite(fx) and not math.isfinite(cy):
-                cy = fu.value_near(fc, B, fu.frv(yq))[0]        # y on the boundary of dom f*: rounding may flip it
+                cy = fu.value_near(fc, B, fu.frv(yq), anchors)[0]   # y on the boundary of dom f*: rounding may flip it
             if iseq and not (math.isfinite(fx + cy) and close(fx + cy, ip, max(abs(fx), abs(cy)))):
                 bad.append('fenchel-young-equality')
             for cl in bad:
@@ -171,7 +173,7 @@ def observe_program(B, rec_xs, rec_ys, eqs, cases, rnd, res, stage, sp, f, space
                     if err:
                         continue
                     if not math.isfinite(cy):
-                        cy = fu.value_near(fc, B, fu.flat(g).tolist())[0]
+                        cy = fu.value_near(fc, B, fu.flat(g).tolist(), anchors)[0]
                     ip = float(x.inner(g))
                 except Exception:
                     continue
@@ -276,7 +278,8 @@ def replay_program(arg):
                 v, err = _val(fc, B.el(fu.frv(t['y'])))
                 if err:
                     break
-                if not fu.matches(v, t['cy']) and not fu.matches(fu.value_near(fc, B, fu.frv(t['y']))[0], t['cy']):
+                if not fu.matches(v, t['cy']) and not fu.matches(fu.value_near(
+                        fc, B, fu.frv(t['y']), [fu.frv(s['y']) for s in rec['ys'] if fu.known(s['cy'])])[0], t['cy']):
                     res['viol'].append((fu.signature(sp, f, 'conjugate-value'),
                                         {'stage': 'replay', 'sp': sp, 'f': f, 'y': t['y'], 'expected_from_TLC': t['cy'],
                                          'observed': v, 'variant': 0}))
@@ -310,8 +313,8 @@ def driver_programs(quick, rnd):
         rv = lambda: [Fraction(rnd.choice([-2, -1, 1, 1, 2]), rnd.choice([1, 2])) for _ in range(N)]
         rules = [lambda g: g,
                  lambda g: mkf('Translate', u=rv(), args=[g]),
-                 lambda g: mkf('ArgScale', rnd.choice([(2, 1), (-1, 2), (3, 2)]), args=[g]),
-                 lambda g: mkf('LScale', rnd.choice([(2, 1), (1, 2), (3, 1)]), args=[g]),
+                 lambda g: mkf('ArgScale', rnd.choice([(2, 1), (-1, 2), (-1, 1)]), args=[g]),
+                 lambda g: mkf('LScale', rnd.choice([(2, 1), (1, 2), (4, 1)]), args=[g]),
                  lambda g: mkf('RVec', v=[Fraction(rnd.choice([-2, 1, 2]), rnd.choice([1, 2])) for _ in range(N)], args=[g]),
                  lambda g: mkf('AddConst', 0, -2, args=[g]),
                  lambda g: mkf('QuadPert', 0, 1, u=rv(), args=[g]),
@@ -403,36 +406,39 @@ def run(ctx):
     ctx.extra['programs_by_outermost_rule'] = fu.by_rule(progs)       # every action of the machine is exercised
     drnd = random.Random(ctx.seed * 7919 + 11)
     dprogs = driver_programs(quick, drnd)
-    with mp.Pool(min(14, os.cpu_count() or 4)) as pool:
-        outs = pool.map(replay_program, [(r, ctx.seed, quick) for r in progs], chunksize=4)
-        douts = pool.map(driver_program, [(spd, f, ctx.seed, 2 if quick else 6) for spd, f in dprogs], chunksize=4)
-    stage['replay_and_driver'] = round(time.time() - t0 - stage['tlc_model_export'], 1)
-    events, details, classes = [], [], set()
-    tot = {'noconj': 0, 'nomoreau': 0, 'evaluable': 0}
-    for o in outs + douts:
+    sink = fu.EventSink(ctx, 'c08')
+    classes = set()
+    tot = {'noconj': 0, 'nomoreau': 0, 'evaluable': 0, 'n': 0}
+
+    def absorb(o):
         for sig, det in o['viol']:
             fu.report(ctx, sig, det)
         for key, nt in o['counts']:
             ctx.count(key, nt)
         for ev, det in o['events']:
-            ev['id'] = len(events)
-            events.append(ev)
-            details.append(det)
-        classes |= o['classes']
-        for k in tot:
+            sink.add(ev, det)
+        classes.update(o['classes'])
+        for k in ('noconj', 'nomoreau', 'evaluable'):
             tot[k] += o[k]
+        tot['n'] += len(o['counts'])
         for s in o['samples']:
             if len(ctx.samples) < 5:
                 ctx.sample(s)
-    ctx.traces += sum(len(o['counts']) for o in outs)
+    with mp.Pool(min(14, os.cpu_count() or 4)) as pool:
+        for o in pool.imap(replay_program, [(r, ctx.seed, quick) for r in progs], chunksize=4):
+            absorb(o)
+        for o in pool.imap(driver_program, [(spd, f, ctx.seed, 2 if quick else 6) for spd, f in dprogs], chunksize=4):
+            absorb(o)
+    stage['replay_and_driver'] = round(time.time() - t0 - stage['tlc_model_export'], 1)
+    ctx.traces += tot['n']
     ctx.extra['programs_without_convex_conj'] = tot['noconj']
     ctx.extra['programs_with_evaluable_conjugate'] = tot['evaluable']
     ctx.extra['driver_programs'] = len(dprogs)
-    fails = fu.validate_events(ctx, events, 'c08')
+    fails = sink.validate()
     stage['tlc_trace_validation'] = round(time.time() - t0 - stage['tlc_model_export'] - stage['replay_and_driver'], 1)
     ctx.extra['stage_wall_s'] = stage
     for eid, clauses in sorted(fails.items()):
-        ev, det = events[eid], details[eid]
+        ev, det = sink.get(eid)
         for cl in clauses:
             if cl == 'value':
                 msg = 'f_real differs from Val (C09 clause): %s' % fu.shape(det['f'])
@@ -444,8 +450,8 @@ def run(ctx):
             d['event'] = ev
             d['tlc_clauses'] = clauses
             fu.report(ctx, fu.signature(det['sp'], det['f'], cl.replace('(q)', '')), d)
-    ctx.traces += sum(len(o['counts']) for o in douts)
-    ctx.extra['trace_events_validated_by_tlc'] = len(events)
+    ctx.extra['trace_events_validated_by_tlc'] = sink.n
+    ctx.extra['trace_events_by_kind'] = sink.kinds
     ctx.extra['trace_events_rejected_by_tlc'] = len(fails)
     fu.design_drift(ctx, design, ctx.extra.get('_ops', []))
     fu.uncovered_report(ctx, classes)
